@@ -183,6 +183,49 @@ def sideSignature (dim : Nat) (nodes : List NodeRect) (path : List PathPt) : Lis
 def firstSigDiff (a b : List (Nat × Nat)) : Option Nat :=
   ((a.zip b).zipIdx.find? fun p => p.1.1 != p.1.2).map (·.2)
 
+/-! ### 5b. side parity across a two-pass (x then y) step: `applyResizes`
+
+A resize moves the nodes first in x (all y fixed), then in y (all x fixed); the state in between is
+not observed, so the crossing *count* of 5. cannot be compared.  The *parity* of the number of
+crossings before the centre on the scan line through a node centre (a ray from the centre) changes
+under continuous motion only when (i) the node centre crosses the path — the edge is pulled through
+the node — or (ii) an end point of the path (the centre of an end node) crosses the ray.  Interior
+vertices create/destroy crossings in pairs at one place.  (ii) is determined by the node rectangles
+alone: for the ray along x (`dim = 0`) the conj-coordinate y changes only in the second pass, when
+the x coordinates already have their final values; for the ray along y (`dim = 1`) x changes only in
+the first pass, when the y coordinates still have their initial values.  With the half-open rule a
+leg crosses the line iff exactly one of its ends is "low" (`crossesLine_eq_low_xor`). -/
+
+def isLow (dim : Nat) (p k : NodeRect) : Bool := decide (conjC dim p.cx p.cy ≤ conjC dim k.cx k.cy)
+
+/-- end node `p` passes over the `dim`-ray of node `k` during an x-then-y step
+    (`pb kb` rectangles before, `pa ka` after) -/
+def endFlip (dim : Nat) (kb ka pb pa : NodeRect) : Bool :=
+  (isLow dim pb kb != isLow dim pa ka) &&
+    (if dim = 0 then decide (scanC dim pa.cx pa.cy < scanC dim ka.cx ka.cy)
+     else decide (scanC dim pb.cx pb.cy < scanC dim kb.cx kb.cy))
+
+def sideParity (dim : Nat) (n : NodeRect) (path : List PathPt) : Bool :=
+  (sideCount dim n path).1 % 2 == 1
+
+/-- the parity after the step that legal motion predicts from the parity before -/
+def expectedParity (dim : Nat) (nodesB nodesA : List NodeRect) (pathB : List PathPt) (k : Nat) : Bool :=
+  let kb := nodesB.getD k default
+  let ka := nodesA.getD k default
+  let s := srcNode pathB
+  let d := dstNode pathB
+  xor (xor (sideParity dim kb pathB) (endFlip dim kb ka (nodesB.getD s default) (nodesA.getD s default)))
+    (endFlip dim kb ka (nodesB.getD d default) (nodesA.getD d default))
+
+/-- first (node, dim) whose side parity after an x-then-y step is not the predicted one -/
+def firstParityDiff (nodesB nodesA : List NodeRect) (pathB pathA : List PathPt) : Option (Nat × Nat) :=
+  (List.range nodesA.length).findSome? fun k =>
+    if k = srcNode pathB ∨ k = dstNode pathB then none
+    else
+      ([0, 1] : List Nat).findSome? fun dim =>
+        if sideParity dim (nodesA.getD k default) pathA != expectedParity dim nodesB nodesA pathB k
+        then some (k, dim) else none
+
 /-! ### whole state -/
 
 structure State where
